@@ -37,22 +37,25 @@ type c12ConnScn struct {
 	Pipelined   bool  `json:"pipelined"` // all Pre requests in one write
 	Post        []int `json:"post"`      // requests sent PostDelayMs after the trigger
 	PostDelayMs int   `json:"post_delay_ms"`
-	Half        bool  `json:"half"` // after Pre: the first bytes of one more request, never completed
+	Half        bool  `json:"half"`                    // after Pre: the first bytes of one more request, never completed
 	Bulk        int   `json:"bulk,omitempty"`          // every response of this connection carries this many extra bytes
 	ReadDelayMs int   `json:"read_delay_ms,omitempty"` // the client starts reading only this long after the trigger (-1: never)
+	Fresh       bool  `json:"fresh,omitempty"`         // opened (and its Pre sent) only after the scenario's quiet period, right before the trigger
 	Abort       bool  `json:"abort,omitempty"`         // once the server has read Pre, the client resets the connection (SO_LINGER 0 -> RST): every later write of the server to it fails
 }
 
 type c12Scn struct {
-	Name     string       `json:"name"`
-	Pool     int          `json:"pool"`      // maxroutine (0 = one goroutine per request)
-	QueueCap int          `json:"queue_cap"` // 0 = framework default
-	GraceMs  int          `json:"grace_ms"`  // gracedowntimeout
-	Signal   string       `json:"signal"`    // TERM | INT | USR2 | DIRECT (TarsServer.Shutdown called with a context of GraceMs)
-	SmallBuf bool         `json:"small_buf,omitempty"` // 64 KB server send buffer: a multi-megabyte response blocks in Write until the client reads
-	Phase    string       `json:"phase"`     // "read": trigger once the server has read every Pre request; "sent": right after the writes
-	Late     bool         `json:"late"`      // open one more connection after the listener went down and send a request on it
-	Conns    []c12ConnScn `json:"conns"`
+	Name          string       `json:"name"`
+	Pool          int          `json:"pool"`                      // maxroutine (0 = one goroutine per request)
+	QueueCap      int          `json:"queue_cap"`                 // 0 = framework default
+	GraceMs       int          `json:"grace_ms"`                  // gracedowntimeout
+	Signal        string       `json:"signal"`                    // TERM | INT | USR2 | DIRECT (TarsServer.Shutdown called with a context of GraceMs)
+	QuietMs       int          `json:"quiet_ms,omitempty"`        // the non-fresh connections are left quiet this long before the trigger
+	ReadTimeoutMs int          `json:"read_timeout_ms,omitempty"` // server readtimeout (0 = framework default: none)
+	SmallBuf      bool         `json:"small_buf,omitempty"`       // 64 KB server send buffer: a multi-megabyte response blocks in Write until the client reads
+	Phase         string       `json:"phase"`                     // "read": trigger once the server has read every Pre request; "sent": right after the writes
+	Late          bool         `json:"late"`                      // open one more connection after the listener went down and send a request on it
+	Conns         []c12ConnScn `json:"conns"`
 }
 
 // c12Event is one entry of the totally ordered log (Seq = position).
@@ -301,6 +304,9 @@ func c12ChildMain(a Args) {
 	if scn.SmallBuf {
 		extra += "tcpwritebuffer=65536\n"
 	}
+	if scn.ReadTimeoutMs > 0 {
+		extra += fmt.Sprintf("readtimeout=%d\n", scn.ReadTimeoutMs)
+	}
 	cfg := fmt.Sprintf(`<tars>
 <application>
 <server>
@@ -376,85 +382,109 @@ threads=1
 	gates := make([]chan struct{}, len(scn.Conns))
 	aborted := make([]int32, len(scn.Conns))
 	deadline := time.Now().Add(8 * time.Second)
-	for i := range scn.Conns {
-		for {
-			select {
-			case <-returned:
-				finish("server stopped before the scenario began (listen failed?)")
-			default:
+	// connectAndSend dials the selected connections, waits until the server has them in its table and sends their
+	// pre-trigger requests
+	connectAndSend := func(sel func(i int) bool) {
+		for i := range scn.Conns {
+			if !sel(i) {
+				continue
 			}
-			c, err := net.DialTimeout("tcp", addr, time.Second)
-			if err == nil {
-				conns[i] = c
-				keys[i] = c.LocalAddr().String()
+			for {
+				select {
+				case <-returned:
+					finish("server stopped before the scenario began (listen failed?)")
+				default:
+				}
+				c, err := net.DialTimeout("tcp", addr, time.Second)
+				if err == nil {
+					conns[i] = c
+					keys[i] = c.LocalAddr().String()
+					break
+				}
+				if time.Now().After(deadline) {
+					finish("connect: " + err.Error())
+				}
+				time.Sleep(20 * time.Millisecond)
+			}
+			rdone[i] = make(chan struct{})
+			if scn.Conns[i].ReadDelayMs != 0 {
+				gates[i] = make(chan struct{})
+			}
+			var g <-chan struct{}
+			if gates[i] != nil {
+				g = gates[i]
+			}
+			go c12Reader(log, i, conns[i], &resp[i], rdone[i], g, &aborted[i])
+		}
+		// every connection is in the server's table before anything is sent (accept + Store are asynchronous)
+		for {
+			sn, ok := snapshot()
+			n, want := 0, 0
+			for i, k := range keys {
+				if !sel(i) {
+					continue
+				}
+				want++
+				if ok {
+					if _, in := sn.Conns[k]; in {
+						n++
+					}
+				}
+			}
+			if n == want {
 				break
 			}
-			if time.Now().After(deadline) {
-				finish("connect: " + err.Error())
+			if time.Now().After(deadline) || (scn.Signal == "EARLY" && ok && sn.ListenClosed >= 1 && n < want && time.Since(trig) > 700*time.Millisecond) {
+				finish("connections not registered by the server")
 			}
-			time.Sleep(20 * time.Millisecond)
+			time.Sleep(5 * time.Millisecond)
 		}
-		rdone[i] = make(chan struct{})
-		if scn.Conns[i].ReadDelayMs != 0 {
-			gates[i] = make(chan struct{})
+		for i := range scn.Conns {
+			if sel(i) {
+				log.add("connect", i, 0)
+			}
 		}
-		var g <-chan struct{}
-		if gates[i] != nil {
-			g = gates[i]
-		}
-		go c12Reader(log, i, conns[i], &resp[i], rdone[i], g, &aborted[i])
-	}
-	// every connection is in the server's table before anything is sent (accept + Store are asynchronous)
-	for {
-		sn, ok := snapshot()
-		n := 0
-		if ok {
-			for _, k := range keys {
-				if _, in := sn.Conns[k]; in {
-					n++
+		// pre-trigger requests
+		for i, cs := range scn.Conns {
+			if !sel(i) {
+				continue
+			}
+			var all []byte
+			for r, d := range cs.Pre {
+				f := c12Frame(i, r, d, cs.Bulk)
+				if cs.Pipelined {
+					all = append(all, f...)
+					continue
+				}
+				log.add("send", i, r)
+				if _, err := conns[i].Write(f); err != nil {
+					finish("write: " + err.Error())
+				}
+			}
+			if cs.Pipelined && len(all) > 0 {
+				for r := range cs.Pre {
+					log.add("send", i, r)
+				}
+				if _, err := conns[i].Write(all); err != nil {
+					finish("write: " + err.Error())
+				}
+			}
+			if cs.Half {
+				f := c12Frame(i, len(cs.Pre)+len(cs.Post), 0, 0)
+				if _, err := conns[i].Write(f[:len(f)/2]); err != nil {
+					finish("write: " + err.Error())
 				}
 			}
 		}
-		if n == len(keys) {
-			break
-		}
-		if time.Now().After(deadline) || (scn.Signal == "EARLY" && ok && sn.ListenClosed >= 1 && n < len(keys) && time.Since(trig) > 700*time.Millisecond) {
-			finish("connections not registered by the server")
-		}
-		time.Sleep(5 * time.Millisecond)
 	}
-	for i := range scn.Conns {
-		log.add("connect", i, 0)
+	connectAndSend(func(i int) bool { return !scn.Conns[i].Fresh })
+	if scn.QuietMs > 0 {
+		// the connections opened so far stay quiet for longer than the poller's idle threshold (their requests are
+		// answered within milliseconds, then nothing is sent): their idle timestamp is stale when shutdown starts
+		time.Sleep(time.Duration(scn.QuietMs) * time.Millisecond)
+		deadline = time.Now().Add(8 * time.Second)
 	}
-	// pre-trigger requests
-	for i, cs := range scn.Conns {
-		var all []byte
-		for r, d := range cs.Pre {
-			f := c12Frame(i, r, d, cs.Bulk)
-			if cs.Pipelined {
-				all = append(all, f...)
-				continue
-			}
-			log.add("send", i, r)
-			if _, err := conns[i].Write(f); err != nil {
-				finish("write: " + err.Error())
-			}
-		}
-		if cs.Pipelined && len(all) > 0 {
-			for r := range cs.Pre {
-				log.add("send", i, r)
-			}
-			if _, err := conns[i].Write(all); err != nil {
-				finish("write: " + err.Error())
-			}
-		}
-		if cs.Half {
-			f := c12Frame(i, len(cs.Pre)+len(cs.Post), 0, 0)
-			if _, err := conns[i].Write(f[:len(f)/2]); err != nil {
-				finish("write: " + err.Error())
-			}
-		}
-	}
+	connectAndSend(func(i int) bool { return scn.Conns[i].Fresh })
 	if scn.Phase == "read" {
 		// The server has read everything a client wrote once the client's socket has nothing unacknowledged (tx_queue = 0)
 		// and the server's socket has nothing unread (rx_queue = 0), on three consecutive samples (/proc/net/tcp): the
